@@ -97,14 +97,33 @@ def _install(ctx):
     contracts.install(D.DiffParser, 'update', _post, on_raise=_on_raise)
 
 
-def _run_history(ctx, v, hist, hid):
+def _crowd(g, recent):
+    """the in-memory cache of a long-running process: 650 other modules, used just now or 20 minutes ago"""
+    import pathlib
+    import time
+    from parso.cache import _NodeCacheItem, parser_cache
+    filler = _state.get('filler')
+    if filler is None:
+        filler = _state['filler'] = g.parse('')
+    t = time.time() - (0 if recent else 1200)
+    d = parser_cache.setdefault(g._hashed, {})
+    for k in range(650):
+        d[pathlib.Path('/virt/c04/filler%d.py' % k)] = _NodeCacheItem(filler, [''], t)
+
+
+def _run_history(ctx, v, hist, hid, crowd_at=None, crowd_recent=True):
     import parso
     from parso.cache import parser_cache
     g = parso.load_grammar(version=v)
     path = '/virt/c04/%s.py' % hid
     try:
         for i, text in enumerate(hist):
+            if crowd_at is not None and i == crowd_at:
+                _crowd(g, crowd_recent)
+                ctx.count('histories_in_a_crowded_memory_cache')
             w = {'version': v, 'history': hist[:i + 1]}
+            if crowd_at is not None:
+                w.update(crowd_at=crowd_at, crowd_recent=crowd_recent)
             _state['w'] = w
             _state['raised'] = False
             _state['last_counts'] = None
@@ -184,13 +203,41 @@ def make_history(rng, files):
     cur = G.split_keep(base)
     orig = cur
     for _ in range(rng.randint(1, 8)):
-        if rng.random() < .15:
+        r = rng.random()
+        if r < .15:
             new = rng.choice([orig, G.split_keep(rng.choice(hist))])
+        elif r < .30:
+            new = _edit_tail(cur, rng)
         else:
             new = G.mutate_lines(cur, rng)
         hist.append(''.join(new))
         cur = new
+    # the whole history in one line-ending style: LF as generated, or CRLF, or bare CR (old Mac), which parso also splits at
+    r = rng.random()
+    if r < .24:
+        nl = '\r' if r < .12 else '\r\n'
+        hist = [t.replace('\r\n', '\n').replace('\r', '\n').replace('\n', nl) for t in hist]
     return hist
+
+
+_TAILS = ['foo\\\n', '+ b\n', 'x = 1 \\\n', '\\\n', 'foo\\', '    + c\n', 'pass\n', '...', ')\n', 'if x: y\\\n', '    z\n', '# c\\\n', "'''\n", '"\\\n']
+
+
+def _edit_tail(lines, rng):
+    """edits at the end of the file: where the end marker's prefix, a missing NEWLINE and pending DEDENTs meet"""
+    lines = list(lines) or ['']
+    r = rng.random()
+    if r < .25:
+        lines[-1] = lines[-1].rstrip('\r\n')                      # drop the final line break
+    elif r < .45:
+        lines[-1] = lines[-1].rstrip('\r\n') + ' \\\n'            # the last line now ends in a continuation
+    elif r < .6 and len(lines) > 1:
+        lines.pop()
+    else:
+        if lines[-1] and not lines[-1].endswith(('\n', '\r')):
+            lines[-1] += '\n'
+        lines.append(rng.choice(_TAILS))
+    return lines
 
 
 def run_shard(spec, ctx):
@@ -222,12 +269,18 @@ def run_shard(spec, ctx):
             break
         v = harness.VERSIONS[(i + spec['shard']) % 9]
         ctx.count('histories')
-        _run_history(ctx, v, make_history(rng, files), str(i))
+        hist = make_history(rng, files)
+        if any('\r' in t.replace('\r\n', '') for t in hist):
+            ctx.count('histories_with_bare_cr_line_ends')
+        if rng.random() < .15:
+            _run_history(ctx, v, hist, str(i), crowd_at=rng.randint(1, max(1, len(hist) - 2)), crowd_recent=rng.random() < .7)
+        else:
+            _run_history(ctx, v, hist, str(i))
 
 
 def replay(w, ctx):
     _install(ctx)
-    _run_history(ctx, w['version'], w['history'], 'replay')
+    _run_history(ctx, w['version'], w['history'], 'replay', crowd_at=w.get('crowd_at'), crowd_recent=w.get('crowd_recent', True))
 
 
 def shards(tier, seed):
@@ -239,4 +292,5 @@ def shards(tier, seed):
 
 
 def floors(tier):
-    return {'evaluations': 5000, 'contract_evals:DiffParser.update': 4000, 'steps_copy_and_parse': 1500, 'nodes_copied': 2000, 'used_names_primed_on_old_tree': 4000}
+    return {'evaluations': 5000, 'contract_evals:DiffParser.update': 4000, 'steps_copy_and_parse': 1500, 'nodes_copied': 2000, 'used_names_primed_on_old_tree': 4000,
+            'histories_in_a_crowded_memory_cache': 300, 'histories_with_bare_cr_line_ends': 300}
